@@ -108,6 +108,15 @@ def rollingRoot (zero : α) (leaves : List α) : Option α :=
     let s2 := if leaves.length % 2 ≠ 0 then s.add H (leaves.getLast?.getD zero) else some s
     s2.bind fun s => finLoop H s.numLeaves s
 
+/-- the leaves both constructions hash: txids, or (witness form) wtxids with the coinbase's
+    replaced by the zero hash (`case witness && i == 0`) -/
+def leafHashes {τ : Type} (txid wtxid : τ → α) (zero : α) (witness : Bool) (txs : List τ) : List α :=
+  if witness then
+    match txs with
+    | [] => []
+    | _ :: rest => zero :: rest.map wtxid
+  else txs.map txid
+
 end merkle
 
 /-! ### transactions and their wire form -/
